@@ -28,7 +28,7 @@ class WorldC13(World):
     WALL = {'quick': 50, 'thorough': 560}
     STATE_CHANGING = ('mklist', 'new', 'attach', 'reorder', 'copy', 'reload')
     STATE_RULE = 'per species: (class, gas?, number of pressure adjustments, number of coverage models, shares its caller list)'
-    PROBES = ('gas-species-from-shared-list', 'nongas-after-gas-same-list', 'padj-disabled', 'padj-preattached', 'padj-in-dict-form',
+    PROBES = ('gas-species-from-shared-list', 'nongas-after-gas-same-list', 'padj-disabled', 'padj-preattached', 'padj-in-dict-form', 'integer-temperatures',
               'array-T-with-cov', 'two-or-more-models', 'reload-with-cov', 'reload-cycles>=2', 'copy-then-attach',
               'per-species-coverage-block', 'shomate-with-models', 'nasa9-with-models', 'reorder-with-two')
     REAL = ('pmutt.empirical.EmpiricalBase / GasPressureAdj', 'pmutt.empirical.nasa.Nasa / Nasa9 / SingleNasa9',
@@ -126,6 +126,11 @@ class WorldC13(World):
             T = [round(rng.uniform(lo, hi), 2) for _ in range(n)]
         else:
             T = round(rng.uniform(lo, hi), 2)
+        if rng.random() < 0.2 and r['cls'] != 'Nasa9':
+            # whole-number temperatures, as typed or from np.arange: an integer array, an int scalar.  (Not for Nasa9: its
+            # bare polynomial raises "Integers to negative integer powers are not allowed" for integer arrays - loud, and
+            # the bare polynomial is C02's subject, not C13's.)
+            T = [int(round(t)) for t in T] if isinstance(T, list) else int(round(T))
         cond = {}
         if rng.random() < 0.7:
             cond['P'] = rng.choice([1.0, round(10 ** rng.uniform(-3, 2), 5)])
@@ -368,6 +373,8 @@ class WorldC13(World):
                     w = b + self._contrib(r, qq, Ti, cond)
                 want.append(w)
             arg = np.array(Ts) if is_arr else T
+            if isinstance(Ts[0], int):
+                ctx.probe('integer-temperatures')
             kw = json.loads(json.dumps(cond))
             got = self.real(getattr(sp, 'get_' + qq), T=arg, _what='get_%s(%s T, %d models)' % (
                 qq, 'array' if is_arr else 'scalar', nmod), **kw)
